@@ -367,6 +367,31 @@ FastForward
 func (c *core) fastForward(block *hg.Block, frame *hg.Frame) error {
 	c.logger.Debug("Fast Forward", frame.Round)
 
+	err := c.checkFastForward(block, frame)
+	if err != nil {
+		return err
+	}
+
+	err = c.hg.Reset(block, frame)
+	if err != nil {
+		return err
+	}
+
+	err = c.setHeadAndSeq()
+	if err != nil {
+		return err
+	}
+
+	// Update peer-selector and validators
+	c.setPeers(peers.NewPeerSet(frame.Peers))
+	c.validators = peers.NewPeerSet(frame.Peers)
+
+	return nil
+}
+
+// checkFastForward verifies, without any side-effect, that a Block and Frame
+// are consistent and sufficiently signed to reset the hashgraph from them.
+func (c *core) checkFastForward(block *hg.Block, frame *hg.Frame) error {
 	for _, p := range frame.Peers {
 		if p == nil {
 			return fmt.Errorf("Invalid Frame: nil peer")
@@ -390,20 +415,6 @@ func (c *core) fastForward(block *hg.Block, frame *hg.Frame) error {
 	if !reflect.DeepEqual(block.FrameHash(), frameHash) {
 		return fmt.Errorf("Invalid Frame Hash")
 	}
-
-	err = c.hg.Reset(block, frame)
-	if err != nil {
-		return err
-	}
-
-	err = c.setHeadAndSeq()
-	if err != nil {
-		return err
-	}
-
-	// Update peer-selector and validators
-	c.setPeers(peers.NewPeerSet(frame.Peers))
-	c.validators = peers.NewPeerSet(frame.Peers)
 
 	return nil
 }
